@@ -21,6 +21,9 @@ func c07document2(r *Rand) string {
 		if r.Chance(1, 3) {
 			fmt.Fprintf(&sb, "1 FAMS @F1@\n")
 		}
+		if r.Chance(1, 2) {
+			fmt.Fprintf(&sb, "1 %s\n2 DATE %s\n", r.Pick([]string{"BIRT", "RESI", "EVEN"}), c07docDate(r))
+		}
 	}
 	nf := 1 + r.Intn(3)
 	for f := 1; f <= nf; f++ {
@@ -41,7 +44,7 @@ func c07document2(r *Rand) string {
 			}
 		}
 		if r.Chance(1, 3) {
-			fmt.Fprintf(&sb, "1 MARR\n2 DATE %s\n", r.Pick(c07TameDates[:6]))
+			fmt.Fprintf(&sb, "1 MARR\n2 DATE %s\n", c07docDate(r))
 		}
 	}
 	if r.Chance(1, 3) {
